@@ -40,6 +40,7 @@ ASSUMPTIONS = [
     "reconcile is made reproducible by passing randseed/maxiters to sciris.asd (the atomica API does not expose them); only the reconciled set vs its own export is compared",
     "zero-uncertainty sampling is exercised on objects whose uncertainties are all 0 or empty; sampling twice is a documented refusal",
     "calibration files: 'unknown' = a parameter/transfer/interaction name, source population or population column that the ParameterSet does not contain; rows that give a population for an ordinary parameter are malformed, not unknown, and are not generated",
+    "single-program outcomes of one effect have pairwise distinct distances from the baseline: with exact ties the 'best' program of a combination is decided by the insertion order of Covout.progs, which the program book does not record (observed: 0.5 vs 0.0 after a round trip of baseline 0.25, outcomes 0.5/0.0); reported, not counted",
     "single population type only (gen_model does not generate several types)",
 ]
 BUDGET = {"quick": 640, "thorough": 20000}
@@ -647,7 +648,7 @@ def apply_op(s, op, v):
         else:
             before = H.proj_progset(s.pg)
             s.pg = s.pg.sample()
-            d = canon.pdiff(before, H.proj_progset(s.pg), 1e-12)
+            d = canon.pdiff(before, H.proj_progset(s.pg), 1e-12, atol=1e-12)  # (interaction outcomes are kept relative to the baseline: absolute precision)
         if d:
             v.add("stateful/zero-uncertainty-sample-changes-values/" + op["what"], "sample() of an object without uncertainty changed %r" % d[:3])
         s.sampled.add(op["what"])
@@ -698,6 +699,9 @@ def apply_op(s, op, v):
         if len(progs) < 2:
             raise Skip("a program set keeps at least one program")
         s.pg.remove_program(progs[i % len(progs)])
+        if s.ins is not None and progs[i % len(progs)] in s.ins.coverage:
+            s.ins = sc.dcp(s.ins)  # instructions must not refer to a program that no longer exists
+            del s.ins.coverage[progs[i % len(progs)]]
     elif k == "remove_par":
         pars = list(s.pg.pars.keys())
         if not pars:
